@@ -15,8 +15,8 @@ THEOREMS = [("Sylvia.Thm.C18", "C18." + t) for t in
              "unknown_word_rejected_contract", "unknown_word_rejected_interface", "too_few_concrete_types_rejected",
              "foldl_diags_mono", "duplicate_outcome_rejected", "new_entry_diag_kept", "missing_payload_diag",
              "data_wrong_scenario_diag", "data_wrong_place_diag"]] + \
-           [("Sylvia.Thm.Obl.Tables", "Obl.extraction_complete"), ("Sylvia.Thm.Obl.Tables", "Obl.msgTypeNew_documented"),
-            ("Sylvia.Thm.Obl.Tables", "Obl.replyOn_documented")]
+           [("Sylvia.Thm.Obl.Complete.C18", "Obl.extraction_complete_C18"), ("Sylvia.Thm.Obl.T.msgTypeNew_documented", "Obl.msgTypeNew_documented"),
+            ("Sylvia.Thm.Obl.T.replyOn_documented", "Obl.replyOn_documented")]
 
 
 # ---------------------------------------------------------------------------------------------
@@ -493,7 +493,7 @@ def run(ctx):
     ctx.assumptions += ["'rejected' at L1 = the expansion raised at least one proc_macro_error diagnostic or returned a syn::Error; message texts are not compared",
                         "span accuracy is checked on the small rustc batch only (primary span inside the annotated impl block)"]
     translate.regenerate()
-    c.prove(ctx, ["Sylvia.Thm.C18", "Sylvia.Thm.Obl.Tables"], THEOREMS)
+    c.prove(ctx, ["Sylvia.Thm.C18"], THEOREMS)
     rng = random.Random(ctx.seed * 19 + 18)
     progs, ops, expect = [], [], []
     nbase = ctx.size(40, 600)
